@@ -23,6 +23,7 @@ func checkC16(c *Ctx) {
 	checkC16NameLookup(c)
 	checkC16KeyAll(c)
 	checkC16RuleCopy(c)
+	checkC16DoNothingWins(c)
 	checkC16BlockKeepsChain(c, c.Rule("C16.block-keeps-chain", "the handle a transaction block receives keeps the chain's statement unless the receiver is a root handle (nested arm and Begin agree)", 2))
 	dbT := p.Named(pkgGorm, "DB")
 
